@@ -1,5 +1,7 @@
 package scanner
 
+import "sort"
+
 type NewLines struct {
 	data []int
 }
@@ -10,16 +12,15 @@ func (nl *NewLines) Append(p int) {
 	}
 }
 
+// GetLine returns the 1-based line of offset p: one more than the number of
+// recorded line ends that lie at or before p. The table can be far ahead of p
+// (the scanner records line ends while it looks ahead for the end of a comment
+// or string that turns out to be unterminated), so it is searched, not walked.
 func (nl *NewLines) GetLine(p int) int {
-	line := len(nl.data) + 1
-
-	for i := len(nl.data) - 1; i >= 0; i-- {
-		if p < nl.data[i] {
-			line = i + 1
-		} else {
-			break
-		}
+	n := len(nl.data)
+	if n == 0 || nl.data[n-1] <= p {
+		return n + 1
 	}
 
-	return line
+	return sort.Search(n, func(i int) bool { return p < nl.data[i] }) + 1
 }
